@@ -41,6 +41,8 @@ type sched struct {
 	nAlive    int
 	waiting   [maxTasks]uintptr // R5: the lock a task is blocked on (0 = runnable)
 	lockWaits int
+	hung      [maxTasks]bool // the task sits in a Write that never returns ("hang" fault)
+	nHung     int
 	yields    int
 	maxYields int
 	switches  int
@@ -142,7 +144,7 @@ func (w *W) runTasks() {
 	first := 1 + s.choose(n, false)
 	s.release(first)
 	<-s.done
-	for i := 0; i < n; i++ {
+	for i := 0; i < n-s.hungCount(); i++ {
 		<-s.joined
 	}
 	w.quiet = false
@@ -298,7 +300,7 @@ func (s *sched) yield(site int, inLog bool) {
 	next := -1
 	k := 0
 	for i := 1; i <= s.n; i++ {
-		if i != me && s.alive[i] && s.waiting[i] == 0 {
+		if i != me && s.alive[i] && s.waiting[i] == 0 && !s.hung[i] {
 			k++
 			if k == v {
 				next = i
@@ -321,11 +323,52 @@ func (s *sched) yield(site int, inLog bool) {
 func (s *sched) runnableOthers(me int) int {
 	k := 0
 	for i := 1; i <= s.n; i++ {
-		if i != me && s.alive[i] && s.waiting[i] == 0 {
+		if i != me && s.alive[i] && s.waiting[i] == 0 && !s.hung[i] {
 			k++
 		}
 	}
 	return k
+}
+
+//go:norace
+func (s *sched) hungCount() int { return s.nHung }
+
+// hang parks the running task for good (its Write never returns). Another runnable task goes on; when
+// only hung tasks are left the episode is over; when the others all wait for locks, that is a deadlock.
+//
+//go:norace
+func (s *sched) hang() {
+	me := s.cur
+	if s.n <= 1 || s.finished || me <= 0 {
+		return
+	}
+	s.hung[me] = true
+	s.nHung++
+	others := s.runnableOthers(me)
+	if others == 0 {
+		for i := 1; i <= s.n; i++ {
+			if s.alive[i] && !s.hung[i] && s.waiting[i] != 0 {
+				s.deadlock(me, s.waiting[i])
+			}
+		}
+		s.finished = true
+		s.cur = 0
+		close(s.done)
+		select {}
+	}
+	v := 1 + s.choose(others, false)
+	k := 0
+	for i := 1; i <= s.n; i++ {
+		if i != me && s.alive[i] && s.waiting[i] == 0 && !s.hung[i] {
+			k++
+			if k == v {
+				s.switches++
+				s.release(i)
+				break
+			}
+		}
+	}
+	select {}
 }
 
 // blocked is called (through the R5 lock seam) by the running task when the lock it
@@ -350,7 +393,7 @@ func (s *sched) blocked(key uintptr) bool {
 	v := 1 + s.choose(others, false)
 	k := 0
 	for i := 1; i <= s.n; i++ {
-		if i != me && s.alive[i] && s.waiting[i] == 0 {
+		if i != me && s.alive[i] && s.waiting[i] == 0 && !s.hung[i] {
 			k++
 			if k == v {
 				s.switches++
@@ -386,7 +429,8 @@ func (s *sched) deadlock(me int, key uintptr) {
 func (s *sched) exit(me int) {
 	s.alive[me] = false
 	s.nAlive--
-	if s.nAlive == 0 {
+	if s.nAlive-s.nHung == 0 {
+		// everybody has finished, or sits in a Write that never returns
 		s.finished = true
 		s.cur = 0
 		close(s.done)
@@ -401,7 +445,7 @@ func (s *sched) exit(me int) {
 	v := s.choose(run, false)
 	k := 0
 	for i := 1; i <= s.n; i++ {
-		if s.alive[i] && s.waiting[i] == 0 {
+		if s.alive[i] && s.waiting[i] == 0 && !s.hung[i] {
 			if k == v {
 				s.release(i)
 				return
